@@ -221,4 +221,163 @@ theorem getSync_other_no_cmds (r r' : Requester) (msg : ResponseMsg) (remLen : N
     repeat' split at h
     all_goals simp at h
 
+/-! ## decoded values are always interpretable (the `shape` outcome is unreachable) -/
+
+/-- field `k` of a shaped tuple, with its schema -/
+theorem fld_shaped {ss : List Schema} {fs : List WVal} (h : shapedTuple ss fs = true)
+    (k : Nat) (s : Schema) (hk : ss[k]? = some s) : ∃ v, fld fs k = some v ∧ shaped s v = true :=
+  shapedTuple_get ss fs h k s hk
+
+theorem asNat_shaped {ss : List Schema} {fs : List WVal} (h : shapedTuple ss fs = true)
+    (k b : Nat) (hk : ss[k]? = some (.varU b)) : ∃ n, asNat (fld fs k) = some n := by
+  obtain ⟨v, hv, hs⟩ := fld_shaped h k _ hk
+  obtain ⟨n, rfl⟩ := shaped_varU hs
+  exact ⟨n, by rw [hv]; rfl⟩
+
+theorem asBytes_shaped {ss : List Schema} {fs : List WVal} (h : shapedTuple ss fs = true)
+    (k b : Nat) (hk : ss[k]? = some (.bytesN b)) : ∃ n, asBytes (fld fs k) = some n := by
+  obtain ⟨v, hv, hs⟩ := fld_shaped h k _ hk
+  obtain ⟨n, rfl⟩ := shaped_bytesN hs
+  exact ⟨n, by rw [hv]; rfl⟩
+
+theorem asBool_shaped {ss : List Schema} {fs : List WVal} (h : shapedTuple ss fs = true)
+    (k : Nat) (hk : ss[k]? = some .bool) : ∃ n, asBool (fld fs k) = some n := by
+  obtain ⟨v, hv, hs⟩ := fld_shaped h k _ hk
+  obtain ⟨n, rfl⟩ := shaped_bool hs
+  exact ⟨n, by rw [hv]; rfl⟩
+
+theorem asSeq_shaped {ss : List Schema} {fs : List WVal} (h : shapedTuple ss fs = true)
+    (k c : Nat) (s : Schema) (hk : ss[k]? = some (.vec c s)) :
+    ∃ vs, asSeq (fld fs k) = some vs ∧ vs.all (fun x => shaped s x) = true := by
+  obtain ⟨v, hv, hs⟩ := fld_shaped h k _ hk
+  obtain ⟨vs, rfl, hall⟩ := shaped_vec hs
+  exact ⟨vs, by rw [hv]; rfl, hall⟩
+
+theorem interpMeta_some {v : WVal} (h : shaped commandMeta v = true) : ∃ m, interpMeta v = some m := by
+  unfold commandMeta at h
+  obtain ⟨fs, rfl, hs⟩ := shaped_tuple h
+  obtain ⟨a, ha⟩ := asBytes_shaped hs CommandMeta_id idLen (by rfl)
+  obtain ⟨b, hb, _⟩ := fld_shaped hs CommandMeta_priority _ (by rfl)
+  obtain ⟨c, hc, _⟩ := fld_shaped hs CommandMeta_parent _ (by rfl)
+  obtain ⟨d, hd⟩ := asNat_shaped hs CommandMeta_policy_length 32 (by rfl)
+  obtain ⟨e, he⟩ := asNat_shaped hs CommandMeta_length 32 (by rfl)
+  simp [interpMeta, ha, hb, hc, hd, he]
+
+theorem interpMetas_some : ∀ (vs : List WVal), vs.all (fun x => shaped commandMeta x) = true →
+    ∃ ms, interpMetas vs = some ms := by
+  intro vs
+  induction vs with
+  | nil => intro _; exact ⟨[], rfl⟩
+  | cons v vs ih =>
+    intro h
+    simp only [List.all_cons, Bool.and_eq_true] at h
+    obtain ⟨m, hm⟩ := interpMeta_some h.1
+    obtain ⟨ms, hms⟩ := ih h.2
+    simp [interpMetas, hm, hms]
+
+theorem interpResponse_some {v : WVal} (h : shaped syncResponseMessage v = true) :
+    ∃ m, interpResponse v = some m := by
+  unfold syncResponseMessage at h
+  obtain ⟨i, p, rfl, hv⟩ := shaped_enum h
+  match i, hv with
+  | 0, hv =>
+    simp only [shapedVariant] at hv
+    obtain ⟨fs, rfl, hs⟩ := shaped_tuple hv
+    obtain ⟨a, ha⟩ := asNat_shaped hs SyncResponseMessage_SyncResponse_session_id 128 (by rfl)
+    obtain ⟨b, hb⟩ := asNat_shaped hs SyncResponseMessage_SyncResponse_response_index 64 (by rfl)
+    obtain ⟨cs, hc, hall⟩ := asSeq_shaped hs SyncResponseMessage_SyncResponse_commands _ _ (by rfl)
+    obtain ⟨ms, hms⟩ := interpMetas_some cs hall
+    simp [interpResponse, SyncResponseMessage_SyncResponse, ha, hb, hc, hms]
+  | 1, hv =>
+    simp only [shapedVariant] at hv
+    obtain ⟨fs, rfl, hs⟩ := shaped_tuple hv
+    obtain ⟨a, ha⟩ := asNat_shaped hs SyncResponseMessage_SyncEnd_session_id 128 (by rfl)
+    obtain ⟨b, hb⟩ := asNat_shaped hs SyncResponseMessage_SyncEnd_max_index 64 (by rfl)
+    obtain ⟨c, hc⟩ := asBool_shaped hs SyncResponseMessage_SyncEnd_remaining (by rfl)
+    simp [interpResponse, SyncResponseMessage_SyncResponse, SyncResponseMessage_SyncEnd, ha, hb, hc]
+  | 2, hv =>
+    simp only [shapedVariant] at hv
+    obtain ⟨fs, rfl, hs⟩ := shaped_tuple hv
+    obtain ⟨a, ha⟩ := asNat_shaped hs SyncResponseMessage_Offer_session_id 128 (by rfl)
+    obtain ⟨b, hb⟩ := asBytes_shaped hs SyncResponseMessage_Offer_head idLen (by rfl)
+    simp [interpResponse, SyncResponseMessage_SyncResponse, SyncResponseMessage_SyncEnd,
+      SyncResponseMessage_Offer, ha, hb]
+  | 3, hv =>
+    simp only [shapedVariant] at hv
+    obtain ⟨fs, rfl, hs⟩ := shaped_tuple hv
+    obtain ⟨a, ha⟩ := asNat_shaped hs SyncResponseMessage_EndSession_session_id 128 (by rfl)
+    simp [interpResponse, SyncResponseMessage_SyncResponse, SyncResponseMessage_SyncEnd,
+      SyncResponseMessage_Offer, SyncResponseMessage_EndSession, ha]
+  | n + 4, hv => simp [shapedVariant] at hv
+
+theorem interpRequest_some {v : WVal} (h : shaped syncRequestMessage v = true) :
+    ∃ m, interpRequest v = some m := by
+  unfold syncRequestMessage at h
+  obtain ⟨i, p, rfl, hv⟩ := shaped_enum h
+  match i, hv with
+  | 0, hv =>
+    simp only [shapedVariant] at hv
+    obtain ⟨fs, rfl, hs⟩ := shaped_tuple hv
+    obtain ⟨a, ha⟩ := asNat_shaped hs SyncRequestMessage_SyncRequest_session_id 128 (by rfl)
+    obtain ⟨g, hg⟩ := asBytes_shaped hs SyncRequestMessage_SyncRequest_graph_id idLen (by rfl)
+    obtain ⟨b, hb⟩ := asNat_shaped hs SyncRequestMessage_SyncRequest_max_bytes 64 (by rfl)
+    obtain ⟨cs, hc, _⟩ := asSeq_shaped hs SyncRequestMessage_SyncRequest_commands _ _ (by rfl)
+    simp [interpRequest, SyncRequestMessage_SyncRequest, ha, hg, hb, hc]
+  | 1, hv =>
+    simp only [shapedVariant] at hv
+    obtain ⟨fs, rfl, hs⟩ := shaped_tuple hv
+    obtain ⟨a, ha⟩ := asNat_shaped hs SyncRequestMessage_RequestMissing_session_id 128 (by rfl)
+    obtain ⟨cs, hc, _⟩ := asSeq_shaped hs SyncRequestMessage_RequestMissing_indexes _ _ (by rfl)
+    simp [interpRequest, SyncRequestMessage_SyncRequest, SyncRequestMessage_RequestMissing, ha, hc]
+  | 2, hv =>
+    simp only [shapedVariant] at hv
+    obtain ⟨fs, rfl, hs⟩ := shaped_tuple hv
+    obtain ⟨a, ha⟩ := asNat_shaped hs SyncRequestMessage_SyncResume_session_id 128 (by rfl)
+    obtain ⟨b, hb⟩ := asNat_shaped hs SyncRequestMessage_SyncResume_response_index 64 (by rfl)
+    obtain ⟨c, hc⟩ := asNat_shaped hs SyncRequestMessage_SyncResume_max_bytes 64 (by rfl)
+    simp [interpRequest, SyncRequestMessage_SyncRequest, SyncRequestMessage_RequestMissing,
+      SyncRequestMessage_SyncResume, ha, hb, hc]
+  | 3, hv =>
+    simp only [shapedVariant] at hv
+    obtain ⟨fs, rfl, hs⟩ := shaped_tuple hv
+    obtain ⟨a, ha⟩ := asNat_shaped hs SyncRequestMessage_EndSession_session_id 128 (by rfl)
+    simp [interpRequest, SyncRequestMessage_SyncRequest, SyncRequestMessage_RequestMissing,
+      SyncRequestMessage_SyncResume, SyncRequestMessage_EndSession, ha]
+  | n + 4, hv => simp [shapedVariant] at hv
+
+theorem interpIncoming_some {v : WVal} (rem : Bytes) (h : shaped syncType v = true) :
+    ∃ m, interpIncoming v rem = some m := by
+  unfold syncType at h
+  obtain ⟨i, p, rfl, hv⟩ := shaped_enum h
+  match i, hv with
+  | 0, hv =>
+    simp only [shapedVariant] at hv
+    obtain ⟨fs, rfl, hs⟩ := shaped_tuple hv
+    obtain ⟨q, hq, hqs⟩ := fld_shaped hs SyncType_Poll_request _ (by rfl)
+    obtain ⟨m, hm⟩ := interpRequest_some hqs
+    simp [interpIncoming, SyncType_Hello, SyncType_Poll, hq, hm]
+  | 1, hv =>
+    simp only [shapedVariant] at hv
+    obtain ⟨fs, rfl, hs⟩ := shaped_tuple hv
+    obtain ⟨a, ha⟩ := asNat_shaped hs SyncType_Subscribe_remain_open 64 (by rfl)
+    obtain ⟨b, hb⟩ := asNat_shaped hs SyncType_Subscribe_max_bytes 64 (by rfl)
+    obtain ⟨cs, hc, _⟩ := asSeq_shaped hs SyncType_Subscribe_commands _ _ (by rfl)
+    obtain ⟨g, hg⟩ := asBytes_shaped hs SyncType_Subscribe_graph_id idLen (by rfl)
+    simp [interpIncoming, SyncType_Hello, SyncType_Poll, SyncType_Subscribe, ha, hb, hc, hg]
+  | 2, hv =>
+    simp only [shapedVariant] at hv
+    obtain ⟨fs, rfl, hs⟩ := shaped_tuple hv
+    obtain ⟨g, hg⟩ := asBytes_shaped hs SyncType_Unsubscribe_graph_id idLen (by rfl)
+    simp [interpIncoming, SyncType_Hello, SyncType_Poll, SyncType_Subscribe, SyncType_Unsubscribe, hg]
+  | 3, hv =>
+    simp only [shapedVariant] at hv
+    obtain ⟨fs, rfl, hs⟩ := shaped_tuple hv
+    obtain ⟨q, hq, hqs⟩ := fld_shaped hs SyncType_Push_message _ (by rfl)
+    obtain ⟨m, hm⟩ := interpResponse_some hqs
+    obtain ⟨g, hg⟩ := asBytes_shaped hs SyncType_Push_graph_id idLen (by rfl)
+    simp [interpIncoming, SyncType_Hello, SyncType_Poll, SyncType_Subscribe, SyncType_Unsubscribe,
+      SyncType_Push, hq, hm, hg]
+  | 4, hv => simp [interpIncoming, SyncType_Hello]
+  | n + 5, hv => simp [shapedVariant] at hv
+
 end AranyaV.SyncMsg
